@@ -100,7 +100,7 @@ def server_key(bits=1024):
 
 
 def encryption_exchange(io, codec, server_id='-', token=b'\x01\x02\x03\x04',
-                        bits=1024, label=None):
+                        bits=1024, label=None, plugin_request_first=None):
     """Send an encryption request, read the response *in plaintext framing*,
     recover secret and token with the private key and switch both directions
     to AES/CFB8.  Returns a dict of what was observed."""
@@ -108,14 +108,30 @@ def encryption_exchange(io, codec, server_id='-', token=b'\x01\x02\x03\x04',
     key, der = server_key(bits)
     rid, rp = codec.encode('encryption_request', {
         'server_id': server_id, 'public_key': der, 'verify_token': token})
-    io.send_frame(rid, rp, label=label or 'encryption_request')
+    plugin_answers = []
+    if plugin_request_first is not None:
+        # a login plugin request and the encryption request in one segment:
+        # the answer to the former may come before the encryption response
+        # (in the clear) or after it (encrypted) - never in between states
+        qid, qp = codec.encode('plugin_request', {
+            'message_id': plugin_request_first, 'channel': 'vf:first',
+            'data': b''})
+        io.send_raw(io.encode_frame(qid, qp) + io.encode_frame(rid, rp))
+    else:
+        io.send_frame(rid, rp, label=label or 'encryption_request')
     raw_before = len(io.raw)
-    f = io.recv_frame()
-    if f is None:
-        raise ProtocolViolation('client closed instead of answering the '
-                                'encryption request')
-    pid, payload, _ = f
-    name, vals = codec.decode('login', pid, payload)
+    while True:
+        f = io.recv_frame()
+        if f is None:
+            raise ProtocolViolation('client closed instead of answering the '
+                                    'encryption request')
+        pid, payload, _ = f
+        name, vals = codec.decode('login', pid, payload)
+        if name == 'plugin_response' and plugin_request_first is not None \
+                and not plugin_answers:
+            plugin_answers.append(('plain', vals))
+            continue
+        break
     if name != 'encryption_response':
         raise ProtocolViolation('expected encryption response, got %s (id %d)'
                                 % (name, pid))
@@ -127,4 +143,16 @@ def encryption_exchange(io, codec, server_id='-', token=b'\x01\x02\x03\x04',
         raise ProtocolViolation('cannot decrypt secret/token: %r' % e)
     obs.update(secret=secret, token=tok, token_ok=tok == token)
     io.enable_encryption(secret)
+    if plugin_request_first is not None and not plugin_answers:
+        f = io.recv_frame()
+        if f is None:
+            raise ProtocolViolation('no answer to the plugin request')
+        name, vals = codec.decode('login', f[0], f[1])
+        if name != 'plugin_response' or \
+                vals.get('message_id') != plugin_request_first:
+            raise ProtocolViolation(
+                'after the encryption response the (decrypted) stream does '
+                'not continue with the plugin answer: %s id %d' % (name, f[0]))
+        plugin_answers.append(('encrypted', vals))
+    obs['plugin_answers'] = plugin_answers
     return obs
